@@ -190,6 +190,14 @@ def replay_verifier(d):
     spec = z3.is_true(z3.simplify(vc.SPECS[d["plugin"]](desc)))
     from fcp.verifier import make_general_verifier
 
+    if d["skeleton"] in vc.DECOY_FIRST and d.get("_primed"):
+        v0 = make_general_verifier()
+        if vc.PLUGINS[d["plugin"]]:
+            importlib.import_module(vc.PLUGINS[d["plugin"]]).Generator().register_checks(v0)
+        try:
+            v0.verify(vc.build(vc.decoy_desc(desc)))
+        except Exception:
+            pass
     v = make_general_verifier()
     if vc.PLUGINS[d["plugin"]]:
         importlib.import_module(vc.PLUGINS[d["plugin"]]).Generator().register_checks(v)
@@ -539,7 +547,11 @@ def replay_gating(d):
                 open(rec["path"], "w").write(stale)
         table = d["verdicts"]
         if d.get("history"):
-            fcp_vstub.CONFIG.update({"checks": [], "records": [], "calls": [], "verdict": lambda ci, cat, k: True})
+            if d.get("history") == 3:
+                fcp_vstub.CONFIG.update({"checks": ["struct", "impl"], "records": [], "calls": [],
+                                         "verdict": lambda ci, cat, k: k == 0 and ci == 0})
+            else:
+                fcp_vstub.CONFIG.update({"checks": [], "records": [], "calls": [], "verdict": lambda ci, cat, k: True})
             gm0 = GeneratorManager(make_general_verifier())
             gm0.generate("vstub", None, None, fcp, out)
             if d.get("history") == 2:
@@ -547,6 +559,7 @@ def replay_gating(d):
         else:
             gm0 = None
         fcp_vstub.CONFIG.update({"checks": d["checks"], "records": recs, "calls": [],
+                                 "epoch": fcp_vstub.CONFIG.get("epoch", 0) + 1,
                                  "verdict": lambda ci, cat, k: table.get(f"{ci}/{k}", True)})
         before = _snapshot(out)
         try:
